@@ -1,5 +1,6 @@
 #include "hashmaster.h"
 #include <string.h>
+#include "../../wverif.h"
 #define HASH_A(h1, h2, h3) ((h1 & h2) | ((~h1) & h3))
 
 #define HASH_B(h1, h2, h3) (h1 ^ h2 ^ h3)
@@ -27,6 +28,7 @@ gethash:获取每一步的哈希值
 */
 void sha1hash::getHash(const u8_t *input)
 {
+  WV_GHOST(WV_HLOG_BLOCK(input); WV_SNAP_H(this->h, 5);)
   memset(s, 0, sizeof(s));
   memcpy(s, input, sizeof(s));
   getwdata();
@@ -34,8 +36,12 @@ void sha1hash::getHash(const u8_t *input)
   u32_t temph[5];
   u32_t f, temp;
   memcpy(temph, h, sizeof(h));
+  WV_GHOST(wv_rounds = 0;)
   for (u32_t i = 0; i < 80; ++i)
+  WV_LOOP(__CPROVER_assigns(i, f, temp, wv_rounds, __CPROVER_object_whole(temph))
+          __CPROVER_loop_invariant(i <= 80 && wv_rounds == i) __CPROVER_decreases(80 - i))
   {
+    WV_GHOST(spec_h5 wv_pre = spec_h5_of(temph);)
     if (i < 20)
       f = HASH_A(temph[1], temph[2], temph[3]) + 0x5A827999;
     else if (i < 40)
@@ -50,7 +56,12 @@ void sha1hash::getHash(const u8_t *input)
     temph[2] = lrot(temph[1], 30);
     temph[1] = temph[0];
     temph[0] = temp;
+    WV_ASSERT("[C07] SHA-1 round i is the FIPS 180-4 round function with f_i, K_i and W[i]",
+              spec_h5_eq(temph, spec_sha1_round(wv_pre, i, this->w[i])));
+    WV_GHOST(wv_rounds++;)
   }
+  WV_ASSERT("[C07] SHA-1 runs exactly 80 rounds", wv_rounds == 80);
+  WV_GHOST(WV_SNAP_T(temph, 5);)
   for (u32_t i = 0; i < 5; ++i)
     h[i] += temph[i];
 }
